@@ -10,7 +10,7 @@
    is what the correspondence stage compares bit for bit with CPython. *)
 From Coq Require Import List ZArith Bool QArith Qcanon.
 From Coq Require Import Reals.
-From RxVerif Require Import Math.Exact Math.ExactProofs Math.FloatModel Math.C12Corr Math.SumErrorProofs Math.MeanErrorProofs Math.MinMaxFloatProofs.
+From RxVerif Require Import Math.Exact Math.ExactProofs Math.FloatModel Math.C12Corr Math.SumErrorProofs Math.MeanErrorProofs Math.MinMaxFloatProofs Math.FloatOpsProofs Math.VarianceFloatProofs Math.VarianceNonnegProofs.
 Import ListNotations.
 Open Scope Qc_scope.
 
@@ -190,6 +190,48 @@ Theorem C12_float_min_exact : forall (h : hints) (l : list Coq.Floats.PrimFloat.
 Proof. exact float_min_exact. Qed.
 Print Assumptions C12_float_min_exact.
 
+(* (f) the Welford variance / stddev in binary64 (the functions the correspondence evaluates):
+     - NEVER negative: whatever the finite data, as long as the Welford states (mean, sum of squared deviations)
+       stay finite, every emitted variance is a finite float >= 0, at every streaming position and at completion;
+       hence math.sqrt in stddev is never given a negative number.  (The running mean moves towards the new item
+       and never past it, so both deviations (x - m_old) and (x - m_new) have the same sign, in floating point.)
+     - EXACTLY zero on a sequence of equal items, whatever their common value (no cancellation residue);
+     - fewer than two items give the float literal 0.0 in every arithmetic. *)
+Theorem C12_float_variance_never_negative : forall (h : hints) (l : list Coq.Floats.PrimFloat.float) (reduce : bool),
+  Forall (fun x => Coq.Floats.PrimFloat.is_finite x = true) l -> (Z.of_nat (length l) < 2 ^ 53)%Z ->
+  Forall state_fin (scan_states (wstep (FA h)) (wseed (FA h)) (map NF l)) ->
+  Forall (fun v => exists f, v = NF f /\ Coq.Floats.PrimFloat.is_finite f = true /\ (0 <= FR f)%R)
+         (variance_run (FA h) reduce (map NF l)).
+Proof. exact float_variance_nonneg. Qed.
+Print Assumptions C12_float_variance_never_negative.
+Theorem C12_float_stddev_sqrt_defined : forall (h : hints) (l : list Coq.Floats.PrimFloat.float) (reduce : bool),
+  Forall (fun x => Coq.Floats.PrimFloat.is_finite x = true) l -> (Z.of_nat (length l) < 2 ^ 53)%Z ->
+  Forall state_fin (scan_states (wstep (FA h)) (wseed (FA h)) (map NF l)) ->
+  Forall (fun v => exists f, v = NF f /\ Coq.Floats.PrimFloat.is_finite f = true /\ (0 <= FR f)%R)
+         (stddev_run (FA h) reduce (map NF l)).
+Proof. exact float_stddev_defined. Qed.
+Print Assumptions C12_float_stddev_sqrt_defined.
+Theorem C12_float_variance_of_equal_items_is_zero : forall (h : hints) (c : Coq.Floats.PrimFloat.float)
+    (l : list Coq.Floats.PrimFloat.float) (reduce : bool),
+  Forall (fun x => Coq.Floats.PrimFloat.is_finite x = true /\ FR x = FR c) l -> (Z.of_nat (length l) < 2 ^ 53)%Z ->
+  Forall (fun v => exists f, v = NF f /\ Coq.Floats.PrimFloat.is_finite f = true /\ FR f = 0%R) (variance_run (FA h) reduce (map NF l))
+  /\ Forall (fun v => exists f, v = NF f /\ Coq.Floats.PrimFloat.is_finite f = true /\ FR f = 0%R) (stddev_run (FA h) reduce (map NF l)).
+Proof. exact (fun h c l r H B => conj (float_variance_constant h c l r H B) (float_stddev_constant h c l r H B)). Qed.
+Print Assumptions C12_float_variance_of_equal_items_is_zero.
+Theorem C12_variance_of_fewer_than_two_items : forall (A : arith) (reduce : bool) (xs : list (T A)),
+  (length xs < 2)%nat -> Forall (fun v => v = fzero A) (variance_run A reduce xs).
+Proof. exact variance_lt2_any. Qed.
+Print Assumptions C12_variance_of_fewer_than_two_items.
+(* the hypotheses are satisfiable: finite data whose Welford states are finite *)
+Example C12_float_hypotheses_hold :
+  Forall (fun x => Coq.Floats.PrimFloat.is_finite x = true) [f_of_Z 1; f_of_Z 3; f_of_Z 2; Coq.Floats.FloatOps.Z.ldexp (f_of_Z 1) 500]
+  /\ Forall state_fin (scan_states (wstep (FA [])) (wseed (FA [])) (map NF [f_of_Z 1; f_of_Z 3; f_of_Z 2; Coq.Floats.FloatOps.Z.ldexp (f_of_Z 1) 500])).
+Proof.
+  split; [repeat constructor|].
+  set (sts := scan_states _ _ _). vm_compute in sts. subst sts.
+  repeat (constructor; [split; [eexists; split; reflexivity|reflexivity]|]). constructor.
+Qed.
+
 Theorem C12_float_unit_roundoff : u53 = (/ 2 ^ 53)%R.
 Proof. exact u53_value. Qed.
 Print Assumptions C12_float_unit_roundoff.
@@ -198,7 +240,9 @@ Print Assumptions C12_float_unit_roundoff.
    length n <= 10^4 without overflow, and every aggregate: the emitted value v_hat and the exact statistic v
    (as computed by QA on the same numbers) satisfy |v_hat - v| <= c * n * 2^-53 * (kappa + 1) * |v| + tiny, kappa the
    condition number of the data.  What is proved is the exact-arithmetic half, collected here, and the binary64
-   bounds for `sum`, `mean` (reduce and streaming) and `min`/`max` (exact) above; for Welford variance/stddev and the two-pass formal variance the binary64 half
+   bounds for `sum`, `mean` (reduce and streaming) and `min`/`max` (exact) above, and for the Welford variance its sign
+   (never negative), its exact value on equal items (zero) and on fewer than two items; for the MAGNITUDE of the error of the Welford
+   variance/stddev and for the two-pass formal variance the binary64 half
    is tied bit-exactly to the code and its error is measured against exact rationals by the oracle. *)
 Theorem C12_partial : forall (sq : Qc -> Qc) (xs : list Qc),
   sum_run (QA sq) true xs = [qsum xs]
